@@ -6,8 +6,39 @@ package redis
 // Comment-only file: it adds nothing to any build.
 //
 // The command parser recurses once per array level; the depth is bounded (a stack overflow is fatal).
+//@ ghost var ncmds int
 //@ func parseRedisDataDepth
 //@   decreases maxArrayDepth + 1 - depth
 //@   requires depth >= 0
 //@   loop 1: decreases n - i
+//@   ensures [no-events] nsends == old(nsends) && ncmds == old(ncmds)
+//@   ensures [no-readers] forall c net.Conn :: c.bufreaders == old(c.bufreaders)
+//@   loop 1: invariant nsends == old(nsends) && ncmds == old(ncmds)
+//@   loop 1: invariant forall c net.Conn :: c.bufreaders == old(c.bufreaders)
 //@   modifies *
+//
+// ---- every command is captured once (property C04) ----
+// One scanner per connection, and one event for every command handed to the command table: ncmds counts
+// the calls of REDISHandler (a ghost counter kept by the verifier).
+// The commands of the table (type cmd) compute an answer: they send no event and make no reader. The one
+// entry of the table, infoCmd, is verified against the same clauses.
+//@ functype cmd
+//@   modifies *
+//@   preserves nsends, sent, bufreaders, ncmds
+// (the sections of INFO, type infoSection, are formatters of configuration values: assumed likewise)
+//@ functype infoSection
+//@   modifies *
+//@   preserves nsends, sent, bufreaders, ncmds
+//@ func (*redisService).infoCmd
+//@   ensures [no-events] nsends == old(nsends)
+//@   ensures [no-readers] forall c net.Conn :: c.bufreaders == old(c.bufreaders)
+//@   modifies *
+//@ func (*redisService).Handle
+//@   callcount REDISHandler: ncmds
+//@   requires conn != nil && conn.bufreaders == 0
+//@   physical 0 <= nsends && nsends < 1<<48 && 0 <= ncmds && ncmds < 1<<48
+//@   ensures [one-reader] conn.bufreaders == 1
+//@   ensures [one-event-per-command] nsends - old(nsends) == ncmds - old(ncmds)
+//@   modifies *
+//@   loop 1: invariant conn.bufreaders == 1
+//@   loop 1: invariant nsends - old(nsends) == ncmds - old(ncmds) && 0 <= ncmds - old(ncmds) && ncmds - old(ncmds) <= loopiter
